@@ -1056,3 +1056,64 @@ add('C09', 'twin', 'fncall-part-temp', [(P, '''        part = concat([doc, NIL i
 ''', '''        separator = COMMA if not last else NIL
         part = concat([doc, separator])
 ''')])
+
+# ----------------------------------------------------------------------------- C08
+add('C08', 'breaker', 'one-piece-bare-literal-again', [(P, '''            # there are no pieces at all): print the single literal.
+            if is_native_type:
+                return flat_version
+            return build_fncall(ctx, constructor, argdocs=[flat_version])''', '''            # there are no pieces at all): print the single literal.
+            return flat_version''')], 'C08.b')
+add('C08', 'breaker', 'nativeness-isinstance-seq', [(P, 'is_native_type = constructor in (tuple, list, set)', 'is_native_type = isinstance(value, (tuple, list, set))')], 'C08')
+add('C08', 'breaker', 'nativeness-isinstance-dict', [(P, 'is_native_type = constructor is dict', 'is_native_type = isinstance(d, dict)')], 'C08')
+add('C08', 'breaker', 'int-repr-value-again', [(P, 'doc = annotate(Token.NUMBER_INT, _builtin_repr(int, value))', 'doc = annotate(Token.NUMBER_INT, repr(value))')], 'C08.c')
+add('C08', 'breaker', 'float-str-value', [(P, 'doc = annotate(Token.NUMBER_FLOAT, _builtin_repr(float, value))', 'doc = annotate(Token.NUMBER_FLOAT, str(value))')], 'C08.c')
+add('C08', 'breaker', 'escape-repr-again', [(P, '''    escaped_with_quotes = _builtin_repr(
+        bytes if isinstance(s, bytes) else str,
+        s
+    )''', '''    escaped_with_quotes = repr(s)''')], 'C08.c')
+add('C08', 'breaker', 'empty-subclass-list-literal', [(P, '''            if is_native_type:
+                return concat([left, right])
+            return pretty_call_alt(ctx, constructor)''', '''            return concat([left, right])''')], 'C08.b')
+add('C08', 'breaker', 'dict-subclass-depth-literal', [(P, '''        literal = concat([LBRACE, ELLIPSIS, RBRACE])
+
+        if is_native_type:
+            return literal
+''', '''        literal = concat([LBRACE, ELLIPSIS, RBRACE])
+        return literal
+''')], 'C08.b')
+add('C08', 'breaker', 'hang-strategy-loses-wrapper', [(P, '''        if not is_native_type:
+            multiline_strategy = MULTILINE_STRATEGY_PLAIN
+''', '')], 'C08.b')
+add('C08', 'breaker', 'wrapper-names-base-class', [(P, '''    if is_native_type:
+        return literal
+
+    return build_fncall(
+        ctx,
+        general_identifier(constructor),
+        argdocs=(literal, ),
+        hug_sole_arg=True
+    )
+
+
+@register_pretty(frozenset)''', '''    if is_native_type:
+        return literal
+
+    return build_fncall(
+        ctx,
+        general_identifier(constructor.__mro__[1]),
+        argdocs=(literal, ),
+        hug_sole_arg=True
+    )
+
+
+@register_pretty(frozenset)''')], 'C08.b')
+add('C08', 'breaker', 'qualname-to-name', [(P, 'module, qualname = s.__module__, s.__qualname__', 'module, qualname = s.__module__, s.__name__')], 'C08.d')
+add('C08', 'breaker', 'frozenset-uses-base', [(P, '''    constructor = type(value)
+    if value:
+        return pretty_call_alt(ctx, constructor, args=(list(value), ))
+    return pretty_call_alt(ctx, constructor)''', '''    constructor = frozenset
+    if value:
+        return pretty_call_alt(ctx, constructor, args=(list(value), ))
+    return pretty_call_alt(ctx, constructor)''')], 'C08')
+add('C08', 'twin', 'nativeness-is-chain', [(P, 'is_native_type = constructor in (str, bytes)', 'is_native_type = constructor is str or constructor is bytes')])
+add('C08', 'twin', 'base-repr-direct', [(P, 'doc = annotate(Token.NUMBER_INT, _builtin_repr(int, value))', 'doc = annotate(Token.NUMBER_INT, int.__repr__(value))')])
